@@ -442,6 +442,12 @@ class Repo:
                     if c.name == expr.id:
                         return c
                     c = c.outer
+                # a name of the class body (a method or a class-level constant) referred to from the class body itself,
+                # e.g. a class-level dispatch table that lists methods defined above it
+                if expr.id in cls.methods:
+                    return cls.methods[expr.id]
+                if expr.id in cls.assigns:
+                    return cls.assigns[expr.id]
             if r is None and hasattr(builtins, expr.id):
                 return External("builtins." + expr.id)
             return r
